@@ -1,5 +1,4 @@
 import VaxisModel.Lemmas.EdLangTFBody
-import VaxisModel.Lemmas.EdLangTIBody
 import VaxisModel.Props.C17
 
 /-!
@@ -12,6 +11,9 @@ changes the translated body: the driver's model follows it, and the theorem of t
 `ClSane cl`: the empty string has no cluster, a non-empty one has one, the clusters concatenate to
 the text — what makes "walk the string until it is empty" the same as "walk its clusters"; it
 follows from `Spec.Editor.Segmentation` (`clSane_of_segmentation`).
+
+One module per function (`Props/C17BodyReset.lean`, `…CursorTo`, `…Insert`, `…DelRight`, `…DelLeft`, `…Kill`, `…Check`,
+`…Base`, textinput in `…TI`), so that a changed function breaks its own theorem and the composite ones here, not the others.
 -/
 namespace VaxisModel.Props.C17Body
 open VaxisModel.Model.EdLang VaxisModel.Model.EdRun VaxisModel.Gen.EditorLang VaxisModel.Lemmas.EdLangTF
@@ -20,58 +22,6 @@ open VaxisModel.Model
 
 variable {A : Type} [DecidableEq A]
 
-/-- Every statement and expression of the ten TextField functions and of textinput's `SetContent`,
-    `Update`, `resegment` was recognised by the translator. -/
-theorem editor_bodies_fully_recognised :
-    [tfHandleEvent, tfCheckChanged, tfReset, tfInsertStringAtCursor, tfCursorTo, tfDeleteCharRightOfCursor,
-     tfDeleteCharLeftOfCursor, tfDeleteCursorToEndOfLine, tfInsertLoop, tfGraphemeCount, tiSetContent, tiUpdate,
-     tiResegment].all Fn.fullyRecognised = true := by decide
-
-/-- `graphemeCountInString` counts the clusters. -/
-theorem tf_count_body_eq_model (cl : List A → List (List A)) (hs : ClSane cl) (s : List A) (env : Env A) :
-    tfCall0 genTf cl "graphemeCountInString" [.str s] env = some (env, .num (cl s).length) :=
-  count_body_eq_model cl hs s env
-
-/-- `Reset` clears value, cursor and the cached count `n`. -/
-theorem tf_reset_body_eq_model (cl : List A → List (List A)) (tf : TextFieldCl.TF A) :
-    tfApi genTf cl "Reset" [] tf = some (TextFieldCl.reset tf, .opaque) :=
-  tfApi_of_call cl _ _ _ _ _ (by simpa [tfCall2, tfCall1] using reset_body_eq_model cl tf)
-
-/-- `CursorTo` -/
-theorem tf_cursorTo_body_eq_model (cl : List A → List (List A)) (tf : TextFieldCl.TF A) (i : Nat) :
-    tfApi genTf cl "CursorTo" [.num i] tf = some ((TextFieldCl.cursorTo tf i).1, .cmd (TextFieldCl.cursorTo tf i).2) :=
-  tfApi_of_call cl _ _ _ _ _ (by simpa [tfCall2, tfCall1] using cursorTo_body_eq_model cl tf i)
-
-/-- `InsertStringAtCursor` (with the helper `insertStringAtCursor`, its loop, the recount of `n`) -/
-theorem tf_insertString_body_eq_model (cl : List A → List (List A)) (hs : ClSane cl) (tf : TextFieldCl.TF A) (s : List A) :
-    tfApi genTf cl "InsertStringAtCursor" [.str s] tf = some (TextFieldCl.insertString cl tf s, .cmd true) :=
-  tfApi_of_call cl _ _ _ _ _ (by simpa [tfCall2] using insertString_body_eq_model cl hs tf s)
-
-/-- `DeleteCharRightOfCursor` -/
-theorem tf_deleteRight_body_eq_model (cl : List A → List (List A)) (hs : ClSane cl) (tf : TextFieldCl.TF A) :
-    tfApi genTf cl "DeleteCharRightOfCursor" [] tf =
-      some ((TextFieldCl.deleteRight cl tf).1, .cmd (TextFieldCl.deleteRight cl tf).2) :=
-  tfApi_of_call cl _ _ _ _ _ (by simpa [tfCall2, tfCall1] using deleteRight_body_eq_model cl hs tf)
-
-/-- `DeleteCharLeftOfCursor` (the recount `tf.n = graphemeCountInString(tf.Value)`, `tf.cursor -= 1`) -/
-theorem tf_deleteLeft_body_eq_model (cl : List A → List (List A)) (hs : ClSane cl) (tf : TextFieldCl.TF A) :
-    tfApi genTf cl "DeleteCharLeftOfCursor" [] tf =
-      some ((TextFieldCl.deleteLeft cl tf).1, .cmd (TextFieldCl.deleteLeft cl tf).2) :=
-  tfApi_of_call cl _ _ _ _ _ (by simpa [tfCall2, tfCall1] using deleteLeft_body_eq_model cl hs tf)
-
-/-- `DeleteCursorToEndOfLine` -/
-theorem tf_killToEnd_body_eq_model (cl : List A → List (List A)) (hs : ClSane cl) (tf : TextFieldCl.TF A) :
-    tfApi genTf cl "DeleteCursorToEndOfLine" [] tf =
-      some ((TextFieldCl.killToEnd cl tf).1, .cmd (TextFieldCl.killToEnd cl tf).2) :=
-  tfApi_of_call cl _ _ _ _ _ (by simpa [tfCall2, tfCall1] using killToEnd_body_eq_model cl hs tf)
-
-/-- `checkChanged` with the `OnChange` callback installed: called with the new value iff it differs. -/
-theorem tf_checkChanged_body_eq_model (cl : List A → List (List A)) (tf : TextFieldCl.TF A) (pre : List A) (cmd : Bool) (log : V A) :
-    (callMethod (tfCx3 genTf cl) tfKeysCb tfCheckChanged [.cmd cmd, .str pre]
-      (envOfTF tf ++ [("tf.OnChange", .opaque), ("tf.OnSubmit", .opaque), ("log", log)])).map (fun p => logOf (getV p.1 "log")) =
-      some (logOf log ++ (TextFieldCl.checkChanged pre tf).map callName) :=
-  checkChanged_body_eq_model cl tf pre cmd log
-
 /-- `HandleEvent` for a key event with both callbacks installed — the release test, the text test,
     the chain of `Matches` tests in source order, the calls into the API functions, `checkChanged`,
     the deferred `Reset` — is the model's `handleKey`: same state, same callbacks. -/
@@ -79,14 +29,6 @@ theorem tf_handleEvent_body_eq_model (cl : List A → List (List A)) (hs : ClSan
     (ev : TextField.KeyEv A) :
     tfHandleKey genTf cl tf ev = some ((TextFieldCl.handleKey cl tf ev).1, (TextFieldCl.handleKey cl tf ev).2.map callName) :=
   handleEvent_body_eq_model cl hs tf ev
-
-/-- Every `Segmentation` is sane in the sense used above. -/
-theorem clSane_of_segmentation (cl : List A → List (List A)) (h : VaxisModel.Spec.Editor.Segmentation cl) : ClSane cl :=
-  clSane_of_seg cl h
-
-/-- Non-vacuity: the segmentation that never merges is sane. -/
-example : ClSane (VaxisModel.Lemmas.EditorCl.singletons (A := Nat)) :=
-  clSane_of_seg _ VaxisModel.Lemmas.EditorCl.singletons_seg
 
 open VaxisModel.Lemmas.EditorCl (TFOpC tfRunC absC specOfC) in
 open VaxisModel.Spec.Editor (runC) in
@@ -118,57 +60,5 @@ theorem textfield_source_callbacks_exact (cl : List A → List (List A)) (hs : V
   apply List.map_congr_left
   intro c _
   cases c <;> simp [callName, absCallC]
-
-/-! ### textinput.Model -/
-
-open VaxisModel.Lemmas.EdLangTIBody in
-/-- `SetContent` -/
-theorem ti_setContent_body_eq_model (cl : List A → List (List A)) (al : List A → Bool) (m : TextInputCl.TIC A) (s : List A) :
-    tiRunSetContent genTi cl al m s = some (TextInputCl.setContent cl m s) :=
-  setContent_body_eq_model cl al m s
-
-open VaxisModel.Lemmas.EdLangTIBody in
-/-- `resegment`: re-segments the text, cursor behind the text it was behind; panics exactly when the model says so. -/
-theorem ti_resegment_body_eq_model (cl : List A → List (List A)) (al : List A → Bool) (m : TextInputCl.TIC A) :
-    callMethod (tiCx0 cl al) tiKeys tiResegment [] (envOfTI m) =
-      (TextInputCl.resegment cl m).map fun m' => (envOfTI m', .opaque) :=
-  resegment_body_eq_model cl al m
-
-open VaxisModel.Lemmas.EdLangTIBody in
-/-- `Update`, for EVERY event and every state: the type switch, the paste bracket (PasteEnd inserts
-    `Characters(string(m.paste))`, paste keys append to the buffer), the release test, the whole key map
-    (`switch msg.String()`: the nineteen labels, the word-motion and kill-word loops with their index
-    expressions, the slice expressions of the deleting arms, the default arm's modifier guards and its loop of
-    `slices.Insert`), the final clamping and `m.resegment()` — translated from the source and run by the
-    interpreter — is the model's `update`: result for result, panic for panic.  (`cl [] = []`: the empty
-    string has no character — law 2 of `Segmentation` at `i = 0`.) -/
-theorem ti_update_body_eq_model (cl : List A → List (List A)) (hnil : cl [] = []) (al : List A → Bool) (m : TextInputCl.TIC A)
-    (ev : TextInputCl.Ev A) :
-    tiRunUpdate genTi cl al m ev = TextInputCl.update cl al m ev :=
-  update_body_eq_model cl hnil al m ev
-
-open VaxisModel.Lemmas.EdLangTIBody VaxisModel.Lemmas.TextInputCl in
-open VaxisModel.Spec.Editor (runC) in
-/-- End to end for textinput, for EVERY segmentation meeting the three laws and every history of `Update`
-    events (keys, paste brackets, releases), `SetContent` and `Draw` calls from any starting content: the
-    widget with `Update` / `SetContent` as translated from the source and interpreted (its `Draw` as modelled) never
-    panics or hangs, holds the ideal editor's text with the cursor at the ideal index within the text, and its
-    content stays the segmentation of its text. -/
-theorem textinput_source_refines (cl : List A → List (List A)) (hs : VaxisModel.Spec.Editor.Segmentation cl)
-    (isAlnum : List A → Bool) (width : List A → Int) (start : List A) (ops : List (TIOpC A)) :
-    ∃ m0 mf sops, tiStepI isAlnum cl width TextInputCl.new (.set start) = some m0 ∧
-      tiRunI isAlnum cl width m0 ops = some (mf, sops) ∧
-      tiAbsC mf = runC cl isAlnum ⟨cl start, (cl start).length⟩ sops ∧
-      0 ≤ mf.cursor ∧ mf.cursor ≤ mf.content.length ∧ mf.content = cl mf.content.flatten := by
-  have hnil := VaxisModel.Lemmas.EditorCl.cl_nil hs
-  obtain ⟨mf, sops, hr, h⟩ := VaxisModel.Props.C17.textinput_refines_clustered cl hs isAlnum width start ops
-  refine ⟨TextInputCl.setContent cl TextInputCl.new start, mf, sops, ?_, ?_, h⟩
-  · rw [tiStepI_eq isAlnum cl hnil]; rfl
-  · rw [tiRunI_eq isAlnum cl hnil]; exact hr
-
-/-- Non-vacuity / a computed instance: Ctrl+w behind "ab cd" through the translated body. -/
-example : tiRunUpdate genTi (VaxisModel.Lemmas.EditorCl.singletons (A := Nat)) (fun c => c != [0])
-    ⟨[[1], [2], [0], [3], [4]], 5, 0, []⟩ (.key "Ctrl+w" false false false []) = some ⟨[[1], [2], [0]], 3, 0, []⟩ := by
-  decide
 
 end VaxisModel.Props.C17Body
